@@ -86,7 +86,10 @@ def gen(stratum, rng, tier):
         vars_ = [(f"t{i}", 0, rng.randint(0, 3)) for i in range(n)]
         du = [rng.randint(0, 4) for _ in range(n)]
         de = [rng.randint(0, 3) for _ in range(n)]
-        spec = {"vars": vars_, "cons": [("cumulative", list(range(n)), du, de, rng.randint(1, 5))]}
+        idx = list(range(n))
+        if n >= 2 and rng.random() < 0.3:
+            idx[rng.randrange(1, n)] = idx[0]  # one start variable drives two tasks of the same cumulative
+        spec = {"vars": vars_, "cons": [("cumulative", idx, du, de, rng.randint(1, 5))]}
     elif stratum == "single-cumulative-wide":
         spec = cpgen.gen_spec("cumulative-wide", rng)
     elif stratum == "planted-unique":
@@ -101,6 +104,7 @@ def gen(stratum, rng, tier):
     else:
         raise ValueError(stratum)
     spec["vars"] = cpgen._shrink_domains(spec["vars"])
+    spec.setdefault("containers", [rng.choice(["list", "list", "tuple", "gen", "mutate"]) for _ in spec["cons"]])
     case = {"spec": spec}
     if rng.random() < 0.35 and len(spec["vars"]) <= 4:
         nv = len(spec["vars"])
